@@ -143,6 +143,22 @@ def gen(rng, tier):
         yield Case("b38ecgen", [tx(ip), hx(seedb), c], "ec-gen-leading-zero")
         enc = with_urandom([seedb], lambda: Bip38EcKeysGenerator.GeneratePrivateKey(ip, mode(c)))
         yield Case("b38ecdec", [tx(enc), pf], "ec-dec-leading-zero")
+    # crafted ciphertexts (scrypt + AES by hand): a well-formed, correctly checksummed no-EC string whose decrypted payload is not a
+    # private key (0, n, n + k, 2^256 - 1) with the address hash of payload mod n: only ValueError is an acceptable answer
+    from Crypto.Cipher import AES
+    from bip_utils import P2PKHAddrEncoder, P2PKHPubKeyModes, Secp256k1PrivateKey
+    for i, v in enumerate((N_SECP + 1, 2**256 - 1, N_SECP, 0, N_SECP + rng.randrange(2, 2**128))[:3 if tier == "quick" else 5]):
+        p = PASSPHRASES[i % 3]
+        compressed = i % 2 == 0
+        red = v % N_SECP or 1
+        pub = Secp256k1PrivateKey.FromBytes(red.to_bytes(32, "big")).PublicKey()
+        addr = P2PKHAddrEncoder.EncodeKey(pub, net_ver=b"\x00", pub_key_mode=P2PKHPubKeyModes.COMPRESSED if compressed else P2PKHPubKeyModes.UNCOMPRESSED)
+        ah = hashlib.sha256(hashlib.sha256(addr.encode()).digest()).digest()[:4]
+        dk = hashlib.scrypt(unicodedata.normalize("NFC", p).encode("utf-8"), salt=ah, n=16384, r=8, p=8, dklen=64, maxmem=64 * 1024 * 1024)
+        x = bytes(a ^ b for a, b in zip(v.to_bytes(32, "big"), dk[:32]))
+        aes = AES.new(dk[32:], AES.MODE_ECB)
+        raw = b"\x01\x42" + bytes([0xe0 if compressed else 0xc0]) + ah + aes.encrypt(x[:16]) + aes.encrypt(x[16:])
+        yield Case("b38noecdec", [tx(Base58Encoder.CheckEncode(raw)), nfc_field(p)], "neg-crafted-out-of-range")
     for lot, seq in ((1048576, 0), (0, 4096), (2**40, 1)):
         yield Case("b38int", [nfc_field("p"), hx(bytes(4)), lot, seq], "neg-lotseq")
     # WIF over every WIF version byte of the coin tables
@@ -194,4 +210,27 @@ def relations(rng, tier, rpt):
                                     "model_output": "%s -> %s %s" % (ref, pk.Raw().ToHex(), want_mode), "no_failing_input": False})
                         break
     rpt.extra["key_object_wif_checks"] = n
+    # the one-call wrapper Bip38Encrypter.GeneratePrivateKeyEc equals the two documented steps on the same random bytes, for every
+    # presence / value pattern of lot and sequence numbers (zero is a legitimate number, distinct from "absent")
+    from bip_utils import Bip38Encrypter
+    nw = 0
+    pairs = [(None, None), (0, 0), (0, 4095), (1048575, 0), (1, 0), (0, 1), (7, 9)]
+    for lot, seq in pairs if tier == "quick" else pairs + [(rng.randrange(1048576), rng.randrange(4096)) for _ in range(6)]:
+        salt = bytes(rng.randrange(256) for _ in range(8 if lot is None else 4))
+        seedb = bytes(rng.randrange(256) for _ in range(24))
+        md = Bip38PubKeyModes.COMPRESSED if nw % 2 else Bip38PubKeyModes.UNCOMPRESSED
+        p = PASSPHRASES[nw % len(PASSPHRASES)]
+        nw += 1
+        ip = with_urandom([salt], lambda: Bip38EcKeysGenerator.GenerateIntermediatePassphrase(p, lot, seq))
+        want = with_urandom([seedb], lambda: Bip38EcKeysGenerator.GeneratePrivateKey(ip, md))
+        try:
+            got = with_urandom([salt, seedb], lambda: Bip38Encrypter.GeneratePrivateKeyEc(p, md, lot, seq))
+        except AssertionError as ex:     # asked for a different amount of random bytes than the two-step route
+            got = "random-byte request of a different size %s" % (ex,)
+        if got != want:
+            bad.append({"property": "C13", "entry_point": "Bip38Encrypter.GeneratePrivateKeyEc", "request_lines": [],
+                        "relation": "the one-call EC generation differs from GenerateIntermediatePassphrase + GeneratePrivateKey on the same random bytes",
+                        "input": "passphrase=%r lot=%s seq=%s salt=%s seedb=%s" % (p, lot, seq, salt.hex(), seedb.hex()), "impl_output": str(got),
+                        "model_output": str(want), "no_failing_input": False})
+    rpt.extra["ec_wrapper_checks"] = nw
     return bad[:5]
